@@ -68,7 +68,9 @@ pub fn status(e: &[RuleSpec], c: u16) -> (u16, Option<String>) {
     if !conditional(h) {
         return if c == 0 { (code, Some(h.id.clone())) } else { (0, None) };
     }
-    if admits(h, c) {
+    // a rule with a response-status condition is never decided at request time (c == 0: no response yet) - not even when
+    // the condition is an exclusion, which the absent response trivially "is not in"
+    if c != 0 && admits(h, c) {
         return (code, Some(h.id.clone()));
     }
     if c != 0 && with.len() >= 2 {
